@@ -42,11 +42,18 @@ from .abc import AbstractAsyncNetworkClient
 class _SocketConnector:
     factory: Callable[[], Awaitable[tuple[AsyncDatagramTransport, SocketProxy]]]
     scope: CancelScope
+    new_scope: Callable[[], CancelScope]
 
     async def get(self) -> tuple[AsyncDatagramTransport, SocketProxy] | None:
         result: tuple[AsyncDatagramTransport, SocketProxy] | None = None
-        with self.scope:
-            result = await self.factory()
+        try:
+            with self.scope:
+                result = await self.factory()
+        finally:
+            if result is None and not self.scope.cancel_called():
+                # The attempt failed or the caller has been cancelled (and aclose() was not called):
+                # the next caller will try again, but a cancel scope cannot be entered twice.
+                self.scope = self.new_scope()
         return result
 
 
@@ -138,6 +145,7 @@ class AsyncUDPNetworkClient(AbstractAsyncNetworkClient[_T_SentPacket, _T_Receive
         self.__socket_connector: _SocketConnector | None = _SocketConnector(
             factory=_utils.make_callback(self.__create_socket, socket_factory),
             scope=backend.open_cancel_scope(),
+            new_scope=backend.open_cancel_scope,
         )
         self.__socket_connector_lock: ILock = backend.create_lock()
         self.__receive_lock: ILock = backend.create_lock()
